@@ -1368,6 +1368,41 @@ theorem aliveInv_step {s : State} {e : Ev} (hen : enabled s e = true)
 theorem aliveInv_init (g : List NodeInfo) : AliveInv (init g) := by
   intro n f r _ hj; simp [init, State.m, aget] at hj
 
+/-- decidable sufficient check of `AliveInv` on a concrete state -/
+def aliveOk (s : State) : Bool :=
+  s.metas.all fun p => p.1.r == Role.fork || !p.2.disk.jobinfo || p.2.disk.complete || s.alive.contains p.1
+
+theorem aget_mem_or_default {κ α} [DecidableEq κ] (d : α) (l : List (κ × α)) (k : κ) :
+    aget d l k = d ∨ (k, aget d l k) ∈ l := by
+  induction l with
+  | nil => exact Or.inl rfl
+  | cons p r ih =>
+    obtain ⟨a, b⟩ := p
+    by_cases h : a = k
+    · subst h; right; simp [aget]
+    · simp only [aget, h, if_false]
+      rcases ih with h' | h'
+      · exact Or.inl h'
+      · exact Or.inr (List.mem_cons_of_mem _ h')
+
+theorem aliveInv_of_check {s : State} (h : aliveOk s = true) : AliveInv s := by
+  intro n f r hr hj hc
+  rcases aget_mem_or_default ({} : Meta) s.metas (⟨n, f, r⟩ : Obj) with hd | hm
+  · have : s.m ⟨n, f, r⟩ = {} := hd
+    rw [this] at hj; simp at hj
+  · simp only [aliveOk, List.all_eq_true] at h
+    have := h _ hm
+    simp only [Bool.or_eq_true, beq_iff_eq, Bool.not_eq_true', List.contains_eq_mem,
+      decide_eq_true_eq] at this
+    simp only [SSet.has] at hj hc
+    have hj' : (aget ({} : Meta) s.metas (⟨n, f, r⟩ : Obj)).disk.jobinfo = true := hj
+    have hc' : (aget ({} : Meta) s.metas (⟨n, f, r⟩ : Obj)).disk.complete = false := hc
+    rcases this with ((h1 | h1) | h1) | h1
+    · exact absurd h1 hr
+    · rw [hj'] at h1; cases h1
+    · rw [hc'] at h1; cases h1
+    · exact h1
+
 /-! ### failure-free runs from the initial state -/
 
 theorem reach_nodes {g : List NodeInfo} {s : State} (h : Reach g s) : s.nodes = g := by
